@@ -44,7 +44,7 @@ Proof. intro. constructor; simpl; intros; try contradiction; discriminate. Qed.
 Lemma cstep_inv : forall s e, cinv s -> cinv (st_of (cstep s e)).
 Proof.
   intros s e [Hp Hf Hd]. unfold st_of.
-  destruct e as [from id target path tag | from id tag | target tag | id | target tag | id | p | p | p b]; simpl.
+  destruct e as [from id target path tag | from id tag | target tag | id | target tag | id | | p | p | p b]; simpl.
   - (* request *)
     destruct ((target =? 0) || (target =? c_me s)); simpl; [constructor; auto|].
     destruct (match path with [] => if memN target (c_conns s) then Some target else None | h :: _ => Some h end) as [h|];
@@ -102,6 +102,7 @@ Proof.
     + intros x Hx. apply in_delN in Hx. apply Hp. tauto.
     + auto.
     + intros x v Hx. apply in_delN in Hx. apply Hd. tauto.
+  - constructor; auto.
   - constructor; auto.
   - constructor; auto.
   - constructor; auto.
@@ -184,7 +185,7 @@ Lemma fwd_entry_stable_step : forall s e fid v,
 Proof.
   intros s e fid v [Hp Hf Hd] Hg Hne. unfold st_of.
   assert (Hle : fid <= c_next s) by (eapply Hf; eauto).
-  destruct e as [from id target path tag | from id tag | target tag | id | target tag | id | p | p | p b]; simpl; auto.
+  destruct e as [from id target path tag | from id tag | target tag | id | target tag | id | | p | p | p b]; simpl; auto.
   - destruct ((target =? 0) || (target =? c_me s)); simpl; auto.
     destruct (match path with [] => if memN target (c_conns s) then Some target else None | h :: _ => Some h end) as [h|]; simpl; auto.
     destruct (negb (memN h (c_conns s))); simpl; auto.
